@@ -26,11 +26,10 @@ LEVEL = 'proof'
 THEOREMS = [
     'CC.C14_translator_accepts',
     'CC.C14_adapters', 'CC.C14_sign', 'CC.C14_denotes_value', 'CC.C14_reverse_neg', 'CC.C14_arrow', 'CC.C14_factories',
-    'CC.C14_ctors', 'CC.C14_lookup_partial', 'CC.C14_lookup_counterexample', 'CC.C14_lookup_time_domain_is_complex',
+    'CC.C14_ctors', 'CC.C14_lookup', 'CC.C14_lookup_params',
     'CC.C14_denotes_real', 'CC.C14_agree_real_cartesian', 'CC.C14_agree_magnitude',
 ]
 OPEN_STATEMENTS = [
-    'CC.C14_lookup_statement is FALSE for the current code: CC.C14_lookup_counterexample',
     'C14_denotes at the level of the text rests on CC.C18_real_partial_statement (open, see C18): CC.C14_denotes_real is '
     'proved under that hypothesis; complex and time-function texts are covered by the correspondence and the oracle only',
     'C14_agree for the numeric read-back of Cartesian vs polar (|q|, arg q are runtime parameters): oracle only',
@@ -202,7 +201,7 @@ def text_oracle(drv, kind, quantity, text, expected: complex, opts, w):
     case = dict(w=w, sin=opts.get('sin', False), deg=opts.get('deg', False), hertz=opts.get('hertz', False))
     if w != 0 and '(' not in text:
         return ['not_a_time_function'], read
-    fails, _ = c18.sinus_oracle(drv, text, expected, unit, p, case, lo, hi)
+    fails, _ = c18.sinus_oracle(drv, text, expected, unit, p, case, lo, hi, mod_2pi=True)
     head = text.split('·')[0]
     r = drv.call('fmt_parse', unit=unit, s=head)['parsed']
     if r and not r.get('inf'):
@@ -392,12 +391,6 @@ def check_agreement(ctx, out, desc):
         # a time function A·cos(wt+φ) and an RMS phasor of the same quantity: A = √2·|phasor|
         if abs(amp - math.sqrt(2) * pr[0]) > rel * amp:
             sym.append('time_amplitude_is_not_peak' if abs(amp - pr[0]) <= rel * amp else 'time_amplitude')
-        if rea is not None:
-            r = num(rea[key])
-            if r is not None and abs(r) > 0:
-                # a DC quantity and its complex (w = 0) annotation are the same number
-                if abs(c - r) > rel * abs(r):
-                    sym.append('dc_shown_divided_by_sqrt2' if abs(c * math.sqrt(2) - r) <= 2 * rel * abs(r) else 'real_vs_complex')
         # a Cartesian text with a single part although both parts of the phasor are expressible with the prefixes
         suppressed = ('j' not in cart[key] and abs(pr[0] * math.sin(pr[1])) >= 1e-6) or \
             (cart[key].lstrip('-').startswith('j') and abs(pr[0] * math.cos(pr[1])) >= 1e-6)
@@ -481,7 +474,8 @@ def check_declarative(ctx, out, desc, sol_type, params):
     for quantity, name, reverse in order:
         if kind is None:
             want.append((cls_of[quantity], '')); continue
-        sol = truth_solution(circuit, 'complex' if kind == 'time' else kind, w)     # the adapter's own solution class (RMS)
+        # the adapter's own solution object: RMS phasors unless the selected constructor passes peak_values=True
+        sol = truth_solution(circuit, 'time' if (kind == 'time' and lk['peak']) else ('complex' if kind == 'time' else kind), w)
         q = get_q(sol, quantity, name)
         s_signed = (-1 if reverse else 1) * q
         m = drv.call('annot_text', kind=kind, quantity=quantity, reverse=reverse, q=core.qc(q), **derived(s_signed, w, opts), **opts)
